@@ -23,7 +23,7 @@
 **   6 call K2: try { throw A } catch (e)      { throw B } callee handler throws
 **   7 call K3: try { }         catch (e)      { }         callee try that completes normally
 **   8 call a plain function that throws B
-** Filter alphabet: 0 catch-all (separate lexical variant)  1 {A}=(A,N)  2 {B}=(N,B)  3 {A,B}
+** Filter alphabet: 0 catch-all (separate lexical variant)  1 {A}=(A,N,M)  2 {B}=(N,B,M)  3 {A,B}=(M,A,B)
 **   (filters are vars bound at run time; N is a type that is never thrown)
 **
 ** Run modes
@@ -41,8 +41,10 @@
 **            ran, the bound object, len(current(Exception)) on entry, in the body, in the handler and after
 **            every construct that completes, exit status / diagnostic, and a following ordinary program.
 **
-** Parameters: objs=types|struct|string|int (what is thrown: singleton types, or value objects
-**             caught through distinct-but-equal filter objects; see "Exception objects" below)
+** Parameters: objs=types|struct|string|int|mixed1|mixed2|mixed3 (what is thrown: singleton types with
+**             prefix-related names, value objects caught through distinct-but-equal filter objects, or
+**             objects of several types against filters whose entries have several types; see
+**             "Exception objects" below)
 **             kind=chain|seq|seqt depth=N alpha=<codes> ppalpha=<codes> falpha=<codes>
 **             shapes=all|body dyns=all|lex chain=0|1 fork=0|1 fresh=0|1 shard=k/n
 **
@@ -55,54 +57,126 @@
 #include "Exception.c"
 #include "vf.h"
 
-static var ExcA = CelloEmpty(ExcA);
-static var ExcB = CelloEmpty(ExcB);
-static var ExcC = CelloEmpty(ExcC);
-static var ExcN = CelloEmpty(ExcN);   /* never thrown */
-static var ExcM = CelloEmpty(ExcM);   /* never thrown either (deep mode needs two distinct non-matching filter entries) */
+/* Type-object kinds.  The names are prefix-related on purpose (a filter entry whose name is a proper
+** prefix of the thrown kind's name must not match it, and vice versa). */
+static var ExcA = CelloEmpty(NetError);
+static var ExcB = CelloEmpty(NetErrorTimeout);
+static var ExcC = CelloEmpty(Net);
+static var ExcN = CelloEmpty(NetErr);                  /* never thrown */
+static var ExcM = CelloEmpty(NetErrorTimeoutRetry);    /* never thrown */
 
 /*
-** Exception objects.  objs=types (default): the singleton type objects above are both thrown
-** and listed in the filters.  objs=struct|string|int: VALUE objects are thrown and the filters
-** list DISTINCT objects that are eq() to them, so "the object bound in the handler is the one
-** that was thrown" is decided by pointer identity (and, for struct, by a payload field that
-** Cmp ignores).  Thrown objects and filters always have the same type, so eq is well defined.
+** Exception objects.
+**   objs=types (default): singleton type objects are thrown and listed in the filters.
+**   objs=struct|string|int: VALUE objects are thrown and the filters list DISTINCT objects that are
+**     eq() to them, so "the object bound in the handler is the one that was thrown" is decided by
+**     pointer identity (and, for struct, by a payload field that Cmp ignores).
+**   objs=mixed1|mixed2|mixed3: A, B, C have three different types (String / Type / struct instance / Int
+**     in rotation) and every filter has three entries of SEVERAL types; the matching entry is first,
+**     middle or last; the other entries have another type than the thrown object or the same type and
+**     another value, including traps: a String whose text is the name of a thrown Type, a struct / Int
+**     whose code is the number of a thrown String.  A handler runs iff some entry has the thrown
+**     object's type and is eq to it.
+** Every filter lists three pairwise distinct objects (a Tuple holding one object twice cannot be iterated).
+** Filter 1 = {A}, filter 2 = {B}, filter 3 = {A,B} in every mode (which entries, see objs_setup).
 */
 struct Exv { int code; int payload; };           /* Cmp looks at code only */
 static int Exv_Cmp(var self, var obj) {
   struct Exv* a = self; struct Exv* b = obj;
   return a->code - b->code;
 }
+static const char* exv_names[] = { "Exc?", "ExcA", "ExcB", "ExcC", "ExcN", "ExcM", "ExcX", "ExcX", "ExcX", "ExcX" };
 static int Exv_Show(var self, var out, int pos) {
   struct Exv* a = self;
-  static const char* nm[] = { "Exc?", "ExcA", "ExcB", "ExcC", "ExcN", "ExcM" };
-  return print_to(out, pos, "%s", $S((char*)nm[(a->code >= 1 && a->code <= 5) ? a->code : 0]));
+  return print_to(out, pos, "%s", $S((char*)exv_names[(a->code >= 1 && a->code <= 9) ? a->code : 0]));
 }
 static var Exv = Cello(Exv, Instance(Cmp, Exv_Cmp), Instance(Show, Exv_Show, NULL));
 
-enum { OBJ_TYPES = 0, OBJ_STRUCT = 1, OBJ_STRING = 2, OBJ_INT = 3 };
+enum { OBJ_TYPES = 0, OBJ_STRUCT = 1, OBJ_STRING = 2, OBJ_INT = 3, OBJ_MIXED1 = 4, OBJ_MIXED2 = 5, OBJ_MIXED3 = 6 };
+enum { OK_TYPE = 0, OK_STRUCT = 1, OK_STRING = 2, OK_INT = 3 };
 static int objs_mode = OBJ_TYPES;
-static var TA, TB, TC;           /* thrown */
-static var FA, FB, FN, FM;       /* listed in filters (FN and FM equal nothing that is thrown) */
 
-static var mk_value(int code, int payload) {
-  static const char* nm[] = { "Exc?", "ExcA", "ExcB", "ExcC", "ExcN", "ExcM" };
-  if (objs_mode == OBJ_STRUCT) { struct Exv* v = new_raw(Exv); v->code = code; v->payload = payload; return v; }
-  if (objs_mode == OBJ_STRING) return new_raw(String, $S((char*)nm[code]));
-  return new_raw(Int, $I(code));
+struct odesc { var obj; int kind, code; char shown[32]; };
+static struct odesc TH[4];                 /* thrown objects 1..3 */
+#define TA (TH[1].obj)
+#define TB (TH[2].obj)
+#define TC (TH[3].obj)
+static var FT[4][3];                       /* the three entries of filter 1..3 */
+static var FEQ[3];                         /* deep mode: an entry that matches thrown 1 / 2 */
+static var FNO[2];                         /* deep mode: two distinct entries that match nothing */
+static struct { var obj; int id; } REG[32]; static int nreg;   /* filter-only objects */
+
+static var type_by_code(int code) { return code == 1 ? ExcA : code == 2 ? ExcB : code == 3 ? ExcC : code == 4 ? ExcN : ExcM; }
+
+/* a new object of the kind; id = what objid() reports if a handler is ever bound to it */
+static var mk_obj(int kind, int code, int payload, const char* text, int id) {
+  var o;
+  if (kind == OK_TYPE) o = type_by_code(code);
+  else if (kind == OK_STRUCT) { struct Exv* v = new_raw(Exv); v->code = code; v->payload = payload; o = v; }
+  else if (kind == OK_STRING) o = new_raw(String, $S((char*)(text ? text : exv_names[code])));
+  else o = new_raw(Int, $I(code));
+  if (id && nreg < 32) { REG[nreg].obj = o; REG[nreg].id = id; nreg++; }
+  return o;
 }
 
+static void mk_thrown(int k, int kind, int code) {
+  TH[k].kind = kind; TH[k].code = code;
+  TH[k].obj = mk_obj(kind, code, 100 + code, NULL, 0);
+  if (kind == OK_TYPE) snprintf(TH[k].shown, sizeof TH[k].shown, "%s", c_str(TH[k].obj));
+  else if (kind == OK_STRUCT) snprintf(TH[k].shown, sizeof TH[k].shown, "%s", exv_names[code]);
+  else if (kind == OK_STRING) snprintf(TH[k].shown, sizeof TH[k].shown, "\"%s\"", exv_names[code]);
+  else snprintf(TH[k].shown, sizeof TH[k].shown, "%d", code);
+}
+
+/* an entry that must match thrown k: the singleton itself for a Type, a distinct equal object otherwise */
+static var mk_equal(int k) {
+  if (TH[k].kind == OK_TYPE) return TH[k].obj;
+  return mk_obj(TH[k].kind, TH[k].code, 200 + TH[k].code, NULL, 4 + k);
+}
+#define NOMATCH(kind, code, text) mk_obj((kind), (code), 300 + (code), (text), 4)
+
 static void objs_setup(void) {
-  if (objs_mode == OBJ_TYPES) { TA = FA = ExcA; TB = FB = ExcB; TC = ExcC; FN = ExcN; FM = ExcM; return; }
-  TA = mk_value(1, 101); TB = mk_value(2, 102); TC = mk_value(3, 103);
-  FA = mk_value(1, 201); FB = mk_value(2, 202); FN = mk_value(4, 204); FM = mk_value(5, 205);
+  nreg = 0;
+  if (objs_mode <= OBJ_INT) {
+    int K = objs_mode == OBJ_TYPES ? OK_TYPE : objs_mode == OBJ_STRUCT ? OK_STRUCT : objs_mode == OBJ_STRING ? OK_STRING : OK_INT;
+    for (int k = 1; k <= 3; k++) mk_thrown(k, K, k);
+    var ea = mk_equal(1), eb = mk_equal(2), n = NOMATCH(K, 4, NULL), m = NOMATCH(K, 5, NULL);
+    FT[1][0] = ea; FT[1][1] = n;  FT[1][2] = m;        /* {A}: first   */
+    FT[2][0] = n;  FT[2][1] = eb; FT[2][2] = m;        /* {B}: middle  */
+    FT[3][0] = m;  FT[3][1] = ea; FT[3][2] = eb;       /* {A,B}: middle, last */
+    FEQ[1] = ea; FEQ[2] = eb; FNO[0] = n; FNO[1] = m;
+    return;
+  }
+  if (objs_mode == OBJ_MIXED1) {            /* A = String "ExcA", B = Type NetErrorTimeout, C = struct 3 */
+    mk_thrown(1, OK_STRING, 1); mk_thrown(2, OK_TYPE, 2); mk_thrown(3, OK_STRUCT, 3);
+    var ea = mk_equal(1), eb = mk_equal(2);
+    FT[1][0] = ExcN;                                   FT[1][1] = NOMATCH(OK_STRING, 6, c_str(ExcB)); FT[1][2] = ea;   /* {A}: last; trap: String named like type B */
+    FT[2][0] = NOMATCH(OK_STRING, 6, c_str(ExcN));     FT[2][1] = eb;                                 FT[2][2] = NOMATCH(OK_STRUCT, 2, NULL);   /* {B}: middle */
+    FT[3][0] = ea;                                     FT[3][1] = NOMATCH(OK_STRUCT, 1, NULL);        FT[3][2] = eb;   /* {A,B}: first, last */
+    FEQ[1] = ea; FEQ[2] = eb; FNO[0] = ExcN; FNO[1] = NOMATCH(OK_INT, 7, NULL);
+  } else if (objs_mode == OBJ_MIXED2) {     /* A = struct 1, B = Int 2, C = Type Net */
+    mk_thrown(1, OK_STRUCT, 1); mk_thrown(2, OK_INT, 2); mk_thrown(3, OK_TYPE, 3);
+    var ea = mk_equal(1), eb = mk_equal(2);
+    FT[1][0] = ea;                                     FT[1][1] = ExcN;                               FT[1][2] = NOMATCH(OK_STRING, 1, NULL);   /* {A}: first */
+    FT[2][0] = NOMATCH(OK_STRING, 6, "2");             FT[2][1] = ExcM;                               FT[2][2] = eb;   /* {B}: last */
+    FT[3][0] = NOMATCH(OK_INT, 1, NULL);               FT[3][1] = ea;                                 FT[3][2] = eb;   /* {A,B}: middle, last; trap: Int 1 vs struct 1 */
+    FEQ[1] = ea; FEQ[2] = eb; FNO[0] = NOMATCH(OK_STRING, 6, c_str(ExcC)); FNO[1] = ExcM;
+  } else {                                  /* A = Type NetError, B = String "ExcB", C = Int 3 */
+    mk_thrown(1, OK_TYPE, 1); mk_thrown(2, OK_STRING, 2); mk_thrown(3, OK_INT, 3);
+    var ea = mk_equal(1), eb = mk_equal(2);
+    FT[1][0] = NOMATCH(OK_STRING, 6, c_str(ExcA));     FT[1][1] = ea;                                 FT[1][2] = NOMATCH(OK_STRUCT, 1, NULL);   /* {A}: middle; trap: String named like type A */
+    FT[2][0] = eb;                                     FT[2][1] = ExcB;                               FT[2][2] = NOMATCH(OK_INT, 2, NULL);      /* {B}: first; the Type NetErrorTimeout is not the String "ExcB" */
+    FT[3][0] = NOMATCH(OK_STRUCT, 2, NULL);            FT[3][1] = eb;                                 FT[3][2] = ea;   /* {A,B}: middle, last */
+    FEQ[1] = ea; FEQ[2] = eb; FNO[0] = NOMATCH(OK_INT, 4, NULL); FNO[1] = ExcN;
+  }
 }
 
 /* the value of a thrown object must still be what was thrown (nothing may have written to it) */
-static int value_intact(var o, int code) {
-  if (objs_mode == OBJ_STRUCT) return ((struct Exv*)o)->code == code && ((struct Exv*)o)->payload == 100 + code;
-  if (objs_mode == OBJ_STRING) { static const char* nm[] = { "", "ExcA", "ExcB", "ExcC" }; return strcmp(c_str(o), nm[code]) == 0; }
-  if (objs_mode == OBJ_INT) return c_int(o) == code;
+static int value_intact(int k) {
+  var o = TH[k].obj; int code = TH[k].code;
+  if (TH[k].kind == OK_STRUCT) return ((struct Exv*)o)->code == code && ((struct Exv*)o)->payload == 100 + code;
+  if (TH[k].kind == OK_STRING) return strcmp(c_str(o), exv_names[code]) == 0;
+  if (TH[k].kind == OK_INT) return c_int(o) == code;
   return 1;
 }
 
@@ -147,13 +221,12 @@ static var volatile EXC;                            /* current(Exception) of the
 static int objid(var o) {
   /* identity: 1..3 = the thrown objects themselves; 5,6,4 = the (distinct, equal) filter objects */
   if (o == NULL) return 0;
-  if (o == TA) return value_intact(o, 1) ? 1 : 8;
-  if (o == TB) return value_intact(o, 2) ? 2 : 8;
-  if (o == TC) return value_intact(o, 3) ? 3 : 8;
-  return o == FN ? 4 : o == FA ? 5 : o == FB ? 6 : o == FM ? 7 : 9;
+  for (int k = 1; k <= 3; k++) if (o == TH[k].obj) return value_intact(k) ? k : 8;
+  for (int i = 0; i < nreg; i++) if (o == REG[i].obj) return REG[i].id;
+  return 9;
 }
 static const char* objname(int id) {
-  static const char* nm[] = { "none", "A", "B", "C", "filter-object-N", "filter-object-A-not-the-thrown-A", "filter-object-B-not-the-thrown-B", "filter-object-M", "thrown-object-with-altered-value", "other" };
+  static const char* nm[] = { "none", "A", "B", "C", "a-filter-object-that-matches-nothing", "filter-object-equal-to-A-not-the-thrown-A", "filter-object-equal-to-B-not-the-thrown-B", "?", "thrown-object-with-altered-value", "other" };
   return (id >= 0 && id <= 9) ? nm[id] : "?";
 }
 
@@ -193,8 +266,6 @@ static void plain_thrower(void) { throw(TB, "from a plain function"); }
     default: break; \
   } } while (0)
 
-#define FILT_A(f) ((f) == 2 ? FN : FA)
-#define FILT_B(f) ((f) == 1 ? FN : FB)
 
 /* one try/catch construct of level L: catch-all and filtered variants are separate texts */
 #define TRYCATCH(L, BODY, HAND) \
@@ -202,8 +273,8 @@ static void plain_thrower(void) { throw(TB, "from a plain function"); }
   if (P.F[L] == 0) { \
     try { BODY } catch (e_) { ev_add('H', (L), objid(e_)); HAND } \
   } else { \
-    var fa_ = FILT_A(P.F[L]); var fb_ = FILT_B(P.F[L]); \
-    try { BODY } catch (e_ in fa_, fb_) { ev_add('H', (L), objid(e_)); HAND } \
+    var fa_ = FT[P.F[L]][0]; var fb_ = FT[P.F[L]][1]; var fc_ = FT[P.F[L]][2]; \
+    try { BODY } catch (e_ in fa_, fb_, fc_) { ev_add('H', (L), objid(e_)); HAND } \
   } \
   ev_add('E', (L), 0);
 
@@ -395,7 +466,7 @@ static const char* stmt_txt(int c) {
   return t[c];
 }
 static const char* filt_txt(int f) {
-  static const char* t[] = { "e", "e in A,N", "e in N,B", "e in A,B" };
+  static const char* t[] = { "e", "e in {A}", "e in {B}", "e in {A,B}" };   /* three entries each, see objs_setup */
   return t[f];
 }
 static void render_block(char* o, size_t n, const struct prog* p, int L, int r) {
@@ -496,6 +567,7 @@ static void classify(char* label, size_t n, const struct ev* act, int nact, int 
   else if ((ek == 'E' && ak == 'H' && e->a == a->a) || (ek == 'Z' && ak == 'X')) sym = "handler-ran-without-raise";
   else if ((ek == 'E' || ek == 'N') && (is_h_like(ak) || ak == 0)) sym = "exception-propagated-without-raise";
   else if (ek == 'H' && ak == 'E' && e->a == a->a) sym = "matching-handler-skipped";
+  else if (ek == 'H' && ak == 'H' && a->a > e->a) sym = "non-matching-handler-ran";      /* an inner level (larger index, callees largest) took it first */
   else if (ek == 'H' && is_h_like(ak)) sym = "matching-handler-bypassed";
   else if (is_h_like(ek) && ak == 'H') sym = "non-matching-handler-ran";
   else if (is_h_like(ek) && (ak == 'E' || ak == 'N' || ak == 'S')) sym = "raised-exception-lost";
@@ -754,11 +826,11 @@ static void visit_fork(void) {
     if (r.signaled) { SH->tr[n].kind = '$'; SH->tr[n].a = (signed char)r.sig; SH->tr[n].b = 0; SH->tr[n].depth = 0; SH->ntr = n + 1; }
     else if (r.exited && r.status != 0 && u) {
       /* which object does the diagnostic name?  (only judged when exactly one of ours appears) */
-      int id = 9, hits = 0;
-      if (strstr(u, "ExcA")) { id = 1; hits++; }
-      if (strstr(u, "ExcB")) { id = 2; hits++; }
-      if (strstr(u, "ExcC")) { id = 3; hits++; }
-      if (hits != 1) id = 9;
+      int id = 9;
+      char tok[64]; size_t tl = 0;
+      for (const char* c = u + 9; *c && *c != '\n' && *c != ' ' && *c != '\t' && tl < sizeof tok - 1; c++) tok[tl++] = *c;
+      tok[tl] = 0;
+      for (int k = 1; k <= 3; k++) if (strcmp(tok, TH[k].shown) == 0) id = k;
       named = id != 9;
       SH->tr[n].kind = 'U'; SH->tr[n].a = 0; SH->tr[n].b = (signed char)id; SH->tr[n].depth = 0; SH->ntr = n + 1;
     }
@@ -801,7 +873,7 @@ static void deep_bad(int where, int level, int seen) {
 }
 
 static var deep_thrown(int id) { return id == 1 ? TA : TB; }
-static var deep_filter(int id) { return id == 1 ? FA : FB; }
+static var deep_filter(int id) { return FEQ[id]; }
 
 static void deep_rec(int level);
 
@@ -826,8 +898,8 @@ static void deep_rec(int level) {
     /* the matching object is listed second, behind one that never matches.  The two entries are always
     ** distinct objects: a Tuple holding the same object twice cannot be iterated (known finding D16 of
     ** C11), so `catch (e in X, X)` would not terminate - not a C07 matter */
-    var fa_ = FN;
-    var fb_ = level == DC.T1 ? deep_filter(DC.x) : (level == DC.T2 && DC.rt) ? deep_filter(3 - DC.x) : FM;
+    var fa_ = FNO[0];
+    var fb_ = level == DC.T1 ? deep_filter(DC.x) : (level == DC.T2 && DC.rt) ? deep_filter(3 - DC.x) : FNO[1];
     try { DEEP_BODY } catch (e_ in fa_, fb_) { DEEP_HAND }
   }
   { int d_ = (int)len(EXC); if (d_ != level) deep_bad('x', level, d_); }
@@ -1018,8 +1090,9 @@ int main(int argc, char** argv) {
   prog_init(&Q); prog_init(&PRE);
   {
     const char* om = vf_param("objs", "types");
-    objs_mode = strcmp(om, "struct") == 0 ? OBJ_STRUCT : strcmp(om, "string") == 0 ? OBJ_STRING : strcmp(om, "int") == 0 ? OBJ_INT : OBJ_TYPES;
-    if (objs_mode == OBJ_TYPES && strcmp(om, "types") != 0) { fprintf(stderr, "objs must be types|struct|string|int\n"); return 2; }
+    objs_mode = strcmp(om, "struct") == 0 ? OBJ_STRUCT : strcmp(om, "string") == 0 ? OBJ_STRING : strcmp(om, "int") == 0 ? OBJ_INT :
+                strcmp(om, "mixed1") == 0 ? OBJ_MIXED1 : strcmp(om, "mixed2") == 0 ? OBJ_MIXED2 : strcmp(om, "mixed3") == 0 ? OBJ_MIXED3 : OBJ_TYPES;
+    if (objs_mode == OBJ_TYPES && strcmp(om, "types") != 0) { fprintf(stderr, "objs must be types|struct|string|int|mixed1|mixed2|mixed3\n"); return 2; }
     objs_setup();
     vf_extra("exception_objects", "\"%s\"", om);
   }
